@@ -133,3 +133,18 @@
        (str.at s k)))))))
 ; the whole translation
 (define-fun trSpec ((s String)) String (str.++ "^" (trPrefix s (str.len s)) "$"))
+
+; ---- one line of a .terraformignore file (property C03) ----
+(define-fun lineTrim ((l String)) String (TrimSpace l))
+; the line carries a rule: not blank, not a comment, not a lone "!"
+(define-fun lineHasRule ((l String)) Bool (and (not (= (lineTrim l) "")) (not (str.prefixof "#" (lineTrim l))) (not (= (lineTrim l) "!"))))
+(define-fun lineNegated ((l String)) Bool (str.prefixof "!" (lineTrim l)))
+(define-fun linePat ((l String)) String (ite (lineNegated l) (str.substr (lineTrim l) 1 (- (str.len (lineTrim l)) 1)) (lineTrim l)))
+(define-fun linePatDir ((l String)) String (ite (str.suffixof "/" (linePat l)) (str.++ (linePat l) "**") (linePat l)))
+; leading "/" anchors (is dropped), anything else may match at any depth
+(define-fun lineRuleVal ((l String)) String (ite (str.prefixof "/" (linePatDir l)) (str.substr (linePatDir l) 1 (- (str.len (linePatDir l)) 1)) (str.++ "**/" (linePatDir l))))
+(declare-fun Replace (String String String Int) String)
+(declare-const emptyNames (Array Int String))
+; the answer of Ruleset.Excludes named as a function of (rule set, path): rule sets are immutable once built
+(declare-fun excl (Int String) Bool)
+(declare-fun domin (Int String) Bool)
